@@ -34,11 +34,17 @@ def main():
     dest = os.path.join(VERIF, "seeded", sid)
     os.makedirs(dest, exist_ok=True)
     for f in ("patch.diff", "demo.py"):
-        shutil.copy(os.path.join(src, f), os.path.join(dest, f))
+        if os.path.abspath(src) != os.path.abspath(dest):
+            shutil.copy(os.path.join(src, f), os.path.join(dest, f))
     meta = json.load(open(os.path.join(src, "meta.json")))
     scratch = f"/tmp/seedrun-{sid}-{os.getpid()}"
     shutil.rmtree(scratch, ignore_errors=True)
-    sh(["rsync", "-a", "--exclude", ".git", "--exclude", "docs", "/repo/", scratch + "/"])
+    base = sys.argv[sys.argv.index("--base") + 1] if "--base" in sys.argv else None
+    if base:  # a change seeded against an earlier commit that no longer applies to HEAD (the code it edits was repaired since)
+        os.makedirs(scratch)
+        subprocess.run(f"git -C /repo archive {base} | tar -x -C {scratch} --exclude=docs", shell=True, check=True)
+    else:
+        sh(["rsync", "-a", "--exclude", ".git", "--exclude", "docs", "/repo/", scratch + "/"])
     rc, out = sh(["git", "apply", "--unsafe-paths", "--directory", scratch, os.path.join(dest, "patch.diff")], cwd="/")
     if rc != 0:
         rc, out = sh(["patch", "-p1", "-i", os.path.join(dest, "patch.diff")], cwd=scratch)
@@ -66,9 +72,14 @@ def main():
             res["checks"][c] = {"rc": rc, "detected": rc == 1, "wall_s": round(time.time() - t, 1),
                                 "violations": [re.sub(r"replay=\S+", "replay=<scratch>", l)[:400] for l in lines[:8]]}
     meta["verification"] = res
-    meta["verified_against_repo_commit"] = sh(["git", "-C", "/repo", "rev-parse", "--short", "HEAD"])[1].strip()
+    meta["verified_against_repo_commit"] = base or sh(["git", "-C", "/repo", "rev-parse", "--short", "HEAD"])[1].strip()
     meta["what_ran"] = ("tools/run_seeded.py: scratch copy of /repo + patch; repository suite with PYTHONPATH=<copy>/src; demo.py against /repo and against the copy; "
                         "`python -m mc <check> --tier quick` with VERIF_REPO=<copy>")
+    try:  # keep the record that the first pass missed this change
+        if json.load(open(os.path.join(dest, "meta.json"))).get("first_pass_detected") is False:
+            meta["first_pass_detected"] = False
+    except Exception:  # noqa: BLE001
+        pass
     json.dump(meta, open(os.path.join(dest, "meta.json"), "w"), indent=1)
     shutil.rmtree(scratch, ignore_errors=True)
     ok = res.get("repo_tests_pass") and res.get("demo_without_change", {}).get("rc") == 0 and res.get("demo_with_change", {}).get("rc") != 0
